@@ -61,7 +61,7 @@ Definition obs_err (probe code : N) (pos d2 : N) : obs15 :=
 (* the harness examines coherence exactly under this condition *)
 Definition coh_tested (c : case15) (g : region) : bool :=
   c_cohere c && g_owned g && (match g_file g with Some _ => true | None => false end) &&
-  hasbit (g_flags g) MAP_SHARED && negb (hasbit (g_flags g) MAP_ANONYMOUS) && (N.land (g_prot g) 3 =? 3) && (0 <? g_size g) && (g_size g <=? 1048576).
+  negb (hasbit (g_flags g) MAP_ANONYMOUS) && (N.land (g_prot g) 3 =? 3) && (0 <? g_size g) && (g_size g <=? 1048576).
 
 Definition run_C15 (c : case15) (probe : N) : obs15 :=
   let o := os_of c probe in
@@ -81,7 +81,9 @@ Definition run_C15 (c : case15) (probe : N) : obs15 :=
              o_pos := pos;
              o_d1 := Z.to_N (foot (c_page c) l);
              o_d2 := Z.to_N (foot (c_page c) (l ++ drop_region g));
-             o_coh1 := if t then 1 else 2; o_coh2 := if t then 1 else 2 |}
+             o_coh1 := if t then 1 else 2;
+             (* region -> file only for a shared mapping; a private one keeps its writes *)
+             o_coh2 := if t then (if hasbit (g_flags g) MAP_SHARED then 1 else 0) else 2 |}
       end
   | _ => obs_err probe 99 (match c_file c with Some _ => 7 | None => 0 end) 0
   end.
